@@ -21,9 +21,12 @@ package simrt
 import (
 	"fmt"
 	"os"
+	"runtime"
 	"runtime/debug"
+	"strings"
 	"sync/atomic"
 	"syscall"
+	"time"
 	"unsafe"
 )
 
@@ -119,6 +122,12 @@ type port struct {
 	groups  []GroupJoin
 }
 
+// SQLEvent is one driver call made on behalf of a datagram: an injected failure (OK false) or an executed statement.
+type SQLEvent struct {
+	Tag int64
+	OK  bool
+}
+
 // GroupJoin is one multicast membership requested on a socket.
 type GroupJoin struct {
 	IfIndex int
@@ -204,6 +213,7 @@ type Sim struct {
 	sqlFaultKind      int
 	SQLFaults         int64
 	SQLFaultTags      []int64 // datagrams whose handler saw an injected sql failure
+	SQLEvents         []SQLEvent
 	dbs               []*trackedDB
 	FaultsFired       [NumFaultKinds]int64
 	poolReuse         int // 0: fifo fresh (no reuse), 1: PRNG choice, 2: always reuse most recent
@@ -558,9 +568,85 @@ func (s *Sim) resume(t *Task) {
 	t.State = StRunning
 	s.cur = t
 	wakeFD(t.wfd)
+	if !pollReadable(s.ctlR, hangWallMs) && s.stuckInDependency(t) {
+		// the task will never hand the baton back; the run ends here (Stop), the goroutine dies with the process
+		t.State = StAbandoned
+		s.cur = nil
+		return
+	}
 	blockRead(s.ctlR)
 	t.rel.Load()
 	s.cur = nil
+}
+
+// hangWallMs: wall-clock time the running task may go without reaching a yield point. Everything that can block
+// in this code base is behind a seam and parks in the simulator; the exception is database/sql's connection
+// pool, which makes a caller wait (for real) when SetMaxOpenConns is in force and every connection is in use.
+const hangWallMs = 20000
+
+//go:norace
+func pollReadable(fd int, timeoutMs int) bool {
+	type pollfd struct {
+		fd      int32
+		events  int16
+		revents int16
+	}
+	deadline := time.Now().Add(time.Duration(timeoutMs) * time.Millisecond)
+	for {
+		p := pollfd{fd: int32(fd), events: 1 /* POLLIN */}
+		left := int(time.Until(deadline) / time.Millisecond)
+		if left <= 0 {
+			return false
+		}
+		n, _, e := syscall.Syscall(syscall.SYS_POLL, uintptr(unsafe.Pointer(&p)), 1, uintptr(left))
+		if e == syscall.EINTR {
+			continue
+		}
+		if e != 0 {
+			fatalf("simrt: poll errno=%d", e)
+		}
+		return n == 1
+	}
+}
+
+// stuckInDependency is called when the running task has not yielded for hangWallMs. If its goroutine waits for a
+// database/sql connection and no other task could ever release one (none is runnable or sleeping: whoever holds
+// the connections is gone or blocked behind this task), the server is blocked forever: a C01 violation. Anything
+// else cannot be decided from here and is machinery trouble (exit 2), never a verdict.
+//
+//go:norace
+func (s *Sim) stuckInDependency(t *Task) bool {
+	buf := make([]byte, 8<<20)
+	buf = buf[:runtime.Stack(buf, true)]
+	var mine string
+	for _, g := range strings.Split(string(buf), "\n\n") {
+		if strings.Contains(g, "database/sql.(*DB).conn(") && strings.Contains(firstLine(g), "[select") {
+			mine = g
+			break
+		}
+	}
+	others := 0
+	for _, o := range s.tasks {
+		if o != t && o.Inc == t.Inc && (o.State == StRunnable || o.State == StSleeping) {
+			others++
+		}
+	}
+	if mine == "" || others > 0 {
+		fatalf("simrt: task %d (%s, datagram %d) has not reached a yield point for %d s of wall time after %s (waiting for a database/sql connection: %v; other tasks that could still run: %d): undecided\n%s",
+			t.ID, t.Kind, t.Tag, hangWallMs/1000, SiteName(t.LastSite), mine != "", others, trimStack(mine))
+	}
+	s.Violation("C01", "blocked-forever/database-sql-connection-pool", fmt.Sprintf("task %d (%s, datagram %d) waits for a database/sql connection after %s and no other task is left that could release one: every connection of the pool is held by work that has already finished (a transaction or result set that was never closed); %d lock(s) are held meanwhile\n%s",
+		t.ID, t.Kind, t.Tag, SiteName(t.LastSite), s.HeldLocks(), trimStack(mine)))
+	s.Stop("blocked in database/sql")
+	return true
+}
+
+//go:norace
+func firstLine(x string) string {
+	if i := strings.IndexByte(x, '\n'); i >= 0 {
+		return x[:i]
+	}
+	return x
 }
 
 // Yield is inserted by simbuild before every statement of instrumented code.
